@@ -258,6 +258,10 @@ class BitEval(object):
                     return (l[0] or r[0], l[1] + r[1])
                 if t["op"] == "-" and r[0] is None:
                     return (l[0], l[1] - r[1])
+        if t.get("op") == "*" and len(t.get("a", [])) == 2:
+            l, r = self.idx(t["a"][0], env, d + 1), self.idx(t["a"][1], env, d + 1)
+            if l and r and l[0] is None and r[0] is None:
+                return (None, l[1] * r[1])
         return None
 
     def field_of(self, t, env, d=0):
@@ -493,11 +497,11 @@ def run(ck):
     ck.rule("C20-R1", "H table agreement on intervals (interval interpretation of two loop-free functions)",
             "Base64Encoder::EncodeByte maps 0..63 by the RFC 4648 alphabet table; Base64Decoder::DecodeCharacter is its inverse on the "
             "alphabet and gives a non-sextet everywhere else (in particular for the padding character); the sextet threshold of "
-            "CalculateDecodedSize separates the two; the padding written is '='", 8)
+            "CalculateDecodedSize separates the two; the padding written is '='", 5)
     ck.rule("C20-R2", "bit-provenance dataflow over the expression trees of every store",
             "every sextet Encode() writes and every octet Decode() writes takes each of its bits from the input bit RFC 4648 prescribes "
             "(full groups and both tail cases), the argument of EncodeByte is provably a sextet, every position of a group is written "
-            "once, padding fills the rest, and the loops advance by 3 and 4", 20)
+            "once, padding fills the rest, and the loops advance by 3 and 4", 6)
     ck.rule("C20-R3", "H table agreement with the specification",
             "CalculateDecodedSize: r left-over sextets in the last group give floor(6r/8) further octets", 2)
     ck.rule("C20-R4", "H token agreement + B guard dominates sink",
@@ -513,9 +517,15 @@ def run(ck):
     ck.touch(enc)
     ck.touch(dec)
     earms = piecewise(ck, enc, 0, 255)
-    darms = piecewise(ck, dec, 0, 255)
     ck.note("EncodeByte table: %s" % [(a, b, k, v) for a, b, k, v, _ in earms])
-    ck.note("DecodeCharacter table: %s" % [(a, b, k, v) for a, b, k, v, _ in darms])
+    try:
+        darms = piecewise(ck, dec, 0, 255)
+        ck.note("DecodeCharacter table: %s" % [(a, b, k, v) for a, b, k, v, _ in darms])
+    except AnalysisBroken as ex:
+        # (a reverse table that is filled by a loop at run time, say: the encoder's table is still compared with RFC 4648 below, the
+        # inverse relation is not decided and the evidence says so)
+        darms = None
+        ck.note("C20-R1 undecided: the decoder's table cannot be read as intervals (%s): inverse / outside-alphabet / padding / threshold clauses not decided" % ex)
 
     # R1a: the encoder's table on 0..63 is the RFC table
     for (lo, hi, off) in RFC:
@@ -527,7 +537,7 @@ def run(ck):
               "values %d..%d must be written as characters %d..%d; the code has %s" % (lo, hi, lo + off, hi + off, [(a, b, kind, k) for a, b, kind, k, _ in pcs]))
     # R1b: the decoder inverts the encoder on the encoder's image, interval by interval
     sext_out = []
-    for (a, b, kind, k, e) in image(earms, 0, 63):
+    for (a, b, kind, k, e) in (image(earms, 0, 63) if darms is not None else []):
         clo, chi = (a + k, b + k) if kind == "aff" else (k, k)
         pcs = image(darms, clo, chi)
         ok = bool(pcs) and sum(y - x + 1 for x, y, *_ in pcs) == chi - clo + 1
@@ -539,7 +549,12 @@ def run(ck):
         ck.ob("C20-R1", "inverse:%d-%d" % (a, b), ok, (pcs[0][4].loc if pcs else dec.loc), dec,
               "characters %d..%d (values %d..%d) must decode to the same values; the decoder has %s" % (clo, chi, a, b, [(x, y, dk, dv) for x, y, dk, dv, _ in pcs]))
         sext_out.append((clo, chi))
+    cds = lib.single(prog, "Base64Decoder::CalculateDecodedSize")
+    ck.touch(cds)
     # R1c: everything outside the alphabet is a non-sextet for the decoder
+    R1CD = darms is not None
+    if darms is None:
+        darms = []
     inside = sorted(sext_out)
     fail_vals = set()
     bad = []
@@ -557,20 +572,20 @@ def run(ck):
                 fail_vals.add(dv)
             else:
                 bad.append((x, y, dk, dv, de))
-    ck.ob("C20-R1", "outside-alphabet", not bad, (bad[0][4].loc if bad else dec.loc), dec,
-          "characters outside the alphabet must not decode to a sextet: %s" % [(x, y, dk, dv) for x, y, dk, dv, _ in bad])
-    padpcs = image(darms, PAD, PAD)
-    ck.ob("C20-R1", "padding-not-a-sextet", bool(padpcs) and all(dk == "const" and dv >= 64 for _, _, dk, dv, _ in padpcs), dec.loc, dec,
-          "the padding character '=' must not decode to a sextet")
+    if R1CD:
+        ck.ob("C20-R1", "outside-alphabet", not bad, (bad[0][4].loc if bad else dec.loc), dec,
+              "characters outside the alphabet must not decode to a sextet: %s" % [(x, y, dk, dv) for x, y, dk, dv, _ in bad])
+        padpcs = image(darms, PAD, PAD)
+        ck.ob("C20-R1", "padding-not-a-sextet", bool(padpcs) and all(dk == "const" and dv >= 64 for _, _, dk, dv, _ in padpcs), dec.loc, dec,
+              "the padding character '=' must not decode to a sextet")
     # R1d: the threshold of "is a sextet"
-    cds = lib.single(prog, "Base64Decoder::CalculateDecodedSize")
-    ck.touch(cds)
     thr = []
     for e in cds.events("cmp"):
         if "DecodeCharacter" in (e.get("t") or "") and e.get("op") in ("<", "<=", ">", ">=", "!=", "=="):
             thr.append(e)
-    ck.require(thr, "CalculateDecodedSize has no comparison of a DecodeCharacter result (the end-of-data scan)")
-    for e in thr:
+    if R1CD:
+        ck.require(thr, "CalculateDecodedSize has no comparison of a DecodeCharacter result (the end-of-data scan)")
+    for e in (thr if R1CD else []):
         rv = e.get("rival") if "DecodeCharacter" in ((e.get("lhs") or {}).get("t") or "") else e.get("lival")
         op = e["op"] if "DecodeCharacter" in ((e.get("lhs") or {}).get("t") or "") else {"<": ">", ">": "<", "<=": ">=", ">=": "<="}.get(e["op"], e["op"])
         ok = rv is not None and fail_vals and ((op == "<" and 63 < rv <= min(fail_vals)) or (op == "<=" and 63 <= rv < min(fail_vals)) or
@@ -584,30 +599,33 @@ def run(ck):
     ck.touch(E)
     ck.touch(D)
 
+    inconclusive = []
+
     def verdict(rule, key, got, want, e, f, msg):
-        """violation only on a definite wrong bit; bits the evaluator cannot follow make the store undecidable (exit 2)"""
+        """three-valued: a definite wrong bit is a violation; bits the evaluator cannot follow make this store undecided (a note in the
+        evidence, not an alarm); otherwise the obligation is discharged.  Returns False when undecided."""
         wrong = [i for i, (g, w) in enumerate(zip(got, want)) if g != UNK and g != w]
         unk = [i for i, g in enumerate(got) if g == UNK]
         if not wrong and unk:
-            raise AnalysisBroken("%s %s at %s: the stored expression is not modelled by the bit-provenance evaluator (%s): %s"
-                                 % (rule, key, e.loc, "; ".join(sorted(set(bev.unmodelled))[:3]) or "unknown bits", e.get("t")))
+            inconclusive.append("%s at %s: the stored expression is not modelled by the bit evaluator: %s" % (key, e.loc, (e.get("t") or "")[:80]))
+            return False
         ck.ob(rule, key, not wrong, e.loc, f, msg + "; the expression gives %s" % (got,))
+        return True
 
     def rname(r):
         return r if isinstance(r, str) else "branch%s.%s" % r
 
-    # -- encoders: every function of the Base64 unit that emits sextets (stores `out.at(k) = ...` / `out[k] = ...` with an explicit
-    #    position, or appends `out += ...` / `out.push_back(...)` whose position is their order within the group)
-    bev = BitEval(prog)
-    APPEND = re.compile(r"^std::basic_string::(operator\+=|push_back|append)$")
+    bevE = BitEval(prog)
+    bevD = BitEval(prog, "Base64Decoder::DecodeCharacter")
+    APPEND = re.compile(r"^std::(basic_string|vector)::(operator\+=|push_back|emplace_back|append)$")
 
-    def payload(f, env, xt, const):
+    def payload_enc(f, env, xt, const):
         """('sextet', bits) | ('const', [codes]) | ('other', None)"""
         if isinstance(const, str) and const.startswith("c:"):
             return ("const", [int(const[2:])])
         if isinstance(const, str) and const.startswith("s:"):
             return ("const", [ord(c) for c in const[2:]])
-        if isinstance(const, int):
+        if isinstance(const, int) and not isinstance(const, bool):
             return ("const", [const])
         t = xt
         while t and t.get("op") == "cast":
@@ -616,8 +634,12 @@ def run(ck):
             return ("other", None)
         if "c" in t:
             return ("const", [t["c"]])
+        if "v" in t:
+            b_ = env.lookup(t)
+            if b_ is not None:
+                return payload_enc(f, b_[1], b_[0], None)
         if t.get("op") == "call" and strip_tmpl(t.get("fn") or "") == "Base64Encoder::EncodeByte" and len(t.get("a", [])) == 1:
-            return ("sextet", bev.bits(t["a"][0], env)[:8])
+            return ("sextet", bevE.bits(t["a"][0], env)[:8])
         if t.get("op") == "elem" and "v" in (t.get("base") or {}) and env.lookup(t["base"]) is None:
             # an alphabet table indexed by the sextet: the table must be the RFC alphabet
             fake = {"xt": t, "fl": f.file}
@@ -626,10 +648,20 @@ def run(ck):
                 okt = [(x, y, d_) for (x, y, d_) in ta] == [(lo, hi, off) for (lo, hi, off) in RFC]
                 ck.ob("C20-R1", "table:%s:%s" % (f.base.rsplit("::", 1)[-1], t["base"]["v"]), okt, f.loc, f,
                       "a character table indexed by a sextet must be the RFC 4648 alphabet; %s maps %s" % (t["base"]["v"], ta))
-                return ("sextet", bev.bits(t.get("i"), env)[:8])
+                return ("sextet", bevE.bits(t.get("i"), env)[:8])
         return ("other", None)
 
-    def emissions(f):
+    def payload_dec(f, env, xt, const):
+        if xt is None:
+            return ("other", None)
+        bits = bevD.bits(xt, env)[:8]
+        if any(x[0] == "S" or (x[0] in ("or", "and") and any(y[0] == "S" for y in x[1])) for x in bits):
+            return ("octet", bits)
+        return ("other", None)
+
+    def emissions(f, bev, payload):
+        """[(region, destination, explicit offset or None, kind, value, event, in a per-element loop?)] for the stores `out.at(k) = ...` /
+        `out[k] = ...` and the appends `out += ...` / `out.push_back(...)` of f"""
         env = func_env(f)
         dom = cfg.dominators(f)
         loops = cfg.natural_loops(f)
@@ -642,45 +674,72 @@ def run(ck):
                 if k is None:
                     continue
                 kind, val = payload(f, env, e.get("xt"), e.get("const"))
-                out.append((control_region(f, dom, loops, e.block), k[0], k[2], kind, val, e))
+                out.append([control_region(f, dom, loops, e.block), k[0], k[2], kind, val, e, False])
             elif APPEND.match(strip_tmpl(e.get("callee") or "")):
                 rv = e.get("recv") or {}
                 args = [a for a in (e.get("args") or []) if not a.get("dflt")]
                 if strip_tmpl(e["callee"]).endswith("operator+=") and len(args) == 2:
                     rv, args = args[0], args[1:]
+                if strip_tmpl(e["callee"]).endswith("::append") and len(args) == 2 and isinstance(args[0].get("const"), int) and isinstance(args[1].get("const"), str):
+                    # append(n, c)
+                    dest = strip_tmpl(rv.get("f") or "") or ("var:" + (rv.get("v") or rv.get("root") or "?"))
+                    out.append([control_region(f, dom, loops, e.block), dest, None, "const", [int(args[1]["const"][2:])] * args[0]["const"], e, False])
+                    continue
                 if len(args) != 1:
                     continue
                 dest = strip_tmpl(rv.get("f") or "") or ("var:" + (rv.get("v") or rv.get("root") or "?"))
-                kind, val = payload(f, env, args[0].get("xt"), args[0].get("const"))
-                out.append((control_region(f, dom, loops, e.block), dest, None, kind, val, e))
+                xt_ = args[0].get("xt")
+                if xt_ is None and args[0].get("v"):
+                    xt_ = {"v": args[0]["v"], "vd": args[0].get("vd")}
+                kind, val = payload(f, env, xt_, args[0].get("const"))
+                out.append([control_region(f, dom, loops, e.block), dest, None, kind, val, e, False])
+        # an emission that is alone in its innermost loop is produced once per *element*, not once per group: positions are not modelled
+        def innermost(bid):
+            c = [(h, body) for h, body in loops if bid in body]
+            return min(c, key=lambda x: len(x[1]))[0] if c else None
+        interesting = [x for x in out if x[3] in ("sextet", "octet")]
+        per_loop = {}
+        for x in interesting:
+            per_loop.setdefault(innermost(x[5].block), []).append(x)
+        for h, xs in per_loop.items():
+            if h is not None and len(xs) == 1:
+                xs[0][6] = True
         return out, env
 
     unit_funcs = [f for f in prog.funcs.values() if os.path.basename(f.file) in ("base64.cc", "base64.h") and not f.is_lambda]
     ck.require(unit_funcs, "no function of base64.cc / base64.h in the analysed program")
+
+    # -- encoders: every function of the Base64 unit that emits sextets
     seen_ids = set()
-    n_encoders = 0
+    n_enc_groups = 0
     for f0 in sorted(unit_funcs, key=lambda f: f.id):
         if f0.id in seen_ids:
             continue
         seen_ids.add(f0.id)
         f = prog.flat(f0)
-        em, eenv = emissions(f)
+        em, eenv = emissions(f, bevE, payload_enc)
         groups = {}
-        for r, dest, off, kind, val, e in em:
-            groups.setdefault((r, dest), []).append((off, kind, val, e))
-        groups = {k: v for k, v in groups.items() if any(kind == "sextet" for _, kind, _, _ in v)}
+        for r, dest, off, kind, val, e, per_el in em:
+            groups.setdefault((r, dest), []).append((off, kind, val, e, per_el))
+        dests = {k[1] for k, v in groups.items() if any(kind == "sextet" for _, kind, _, _, _ in v)}
+        groups = {k: v for k, v in groups.items() if k[1] in dests and any(kind in ("sextet", "const") for _, kind, _, _, _ in v)}
+        groups = {k: v for k, v in groups.items() if any(kind == "sextet" for _, kind, _, _, _ in v)}
         if not groups:
             continue
-        n_encoders += 1
         ck.touch(f)
         fn = f.base.rsplit("::", 1)[-1]
         tails_n = []
         loop_seen = False
+        undecided = False
         for (r, dest), sts in sorted(groups.items(), key=lambda x: str(x[0])):
-            # positions: explicit for element stores, the running count for appends
+            gname = "%s:%s" % (fn, rname(r))
+            if any(per_el for *_x, per_el in sts):
+                inconclusive.append("enc:%s: the sextets of this group are produced by a loop over the group's elements: positions not modelled" % gname)
+                undecided = True
+                continue
             parsed = []
             pos = 0
-            for off, kind, val, e in sts:
+            for off, kind, val, e, _pe in sts:
                 if kind == "const":
                     for c in val:
                         parsed.append((off if off is not None else pos, "const", c, e))
@@ -690,9 +749,12 @@ def run(ck):
                     pos += 1
             n_in = 0
             canon = []
+            unk_grp = False
             for off, kind, val, e in parsed:
                 if kind == "sextet":
                     got = [("IN", x[2], x[3]) if x[0] == "I" else x for x in val]
+                    if any(x == UNK for x in got):
+                        unk_grp = True
                     for x in got:
                         if x[0] == "IN":
                             n_in = max(n_in, x[1] + 1)
@@ -703,7 +765,12 @@ def run(ck):
                     canon.append((off, kind, got, e))
                 else:
                     canon.append((off, kind, val, e))
-            gname = "%s:%s" % (fn, rname(r))
+            if unk_grp and not any(k_ == "sextet" and any(g_ != UNK and g_[0] in ("or", "and") for g_ in v_) for _o, k_, v_, _e in canon):
+                inconclusive.append("enc:%s: a sextet of this group is computed by an expression the bit evaluator does not model (%s)"
+                                    % (gname, "; ".join(sorted(set(bevE.unmodelled))[:3]) or "unknown bits"))
+                undecided = True
+                continue
+            n_enc_groups += 1
             offs = sorted(o for o, *_ in canon)
             ck.ob("C20-R2", "enc:%s:positions" % gname, offs == [0, 1, 2, 3], sts[0][3].loc, f,
                   "every group writes the output positions 0..3 exactly once; this one writes %s" % offs)
@@ -730,38 +797,70 @@ def run(ck):
                 want += [Z, Z]
                 verdict("C20-R2", key, val, want, e, f,
                         "sextet %d of a group of %d octet(s) must be the bits %s (and nothing above them)" % (off, n_in, want[:6]))
-        ck.ob("C20-R2", "enc:%s:tail-cases" % fn, sorted(tails_n) == [1, 2] and loop_seen, f.loc, f,
-              "an encoder has a full-group loop and tail groups for exactly 1 and 2 left-over octets; tail groups read %s octet(s)" % sorted(tails_n), structural=True)
-        st = strides(f)
-        ck.ob("C20-R2", "enc:%s:strides" % fn, 3 in st.values() and set(st.values()) <= {3, 4}, f.loc, f,
-              "the full-group loop must advance the input by 3 (and an indexed output by 4): %s" % st)
-    ck.require(n_encoders >= 1, "no sextet-emitting function found in the Base64 unit (layout not recognised)")
+        if not undecided:
+            ck.ob("C20-R2", "enc:%s:tail-cases" % fn, sorted(tails_n) == [1, 2] and loop_seen, f.loc, f,
+                  "an encoder has a full-group loop and tail groups for exactly 1 and 2 left-over octets; tail groups read %s octet(s)" % sorted(tails_n), structural=True)
+            st = strides(f)
+            ck.ob("C20-R2", "enc:%s:strides" % fn, 3 in st.values() and set(st.values()) <= {3, 4}, f.loc, f,
+                  "the full-group loop must advance the input by 3 (and an indexed output by 4): %s" % st)
 
-    # -- decoder: an octet's bits do not depend on how many octets the group has, so every store is judged on its own
-    bev = BitEval(prog, "Base64Decoder::DecodeCharacter")
-    denv = func_env(D)
-    ds = stores(D, bev, denv, "::m_DecodedData")
-    ck.require(ds, "Decode() has no element stores into the output buffer (layout not recognised)")
-    loop_offs, tail_offs = [], []
-    for r, off, e in ds:
-        (loop_offs if r == "loop" else tail_offs).append(off)
-        bits = bev.bits(e.get("xt"), denv)[:8]
-        got = [("SX", x[2], x[3]) if (x[0] == "S" and x[1].endswith("::m_Base64EncodedString")) else (UNK if x[0] in ("I", "S") else x) for x in bits]
-        want = []
-        for c in range(8):
-            g = 8 * (2 - off) + c
-            want.append(("SX", 3 - g // 6, g % 6))
-        if not (0 <= off <= 2):
-            ck.ob("C20-R2", "dec:%s:%d" % (rname(r), off), False, e.loc, D, "a group has the octets 0..2; position %d is written" % off)
+    # -- decoders: every function of the unit that emits octets computed from sextets.  An octet's bits do not depend on how many
+    #    octets the group has, so every emission is judged on its own; positions: 0..2 in the loop, a prefix of 0..1 in the tails
+    seen_ids = set()
+    n_dec = 0
+    for f0 in sorted(unit_funcs, key=lambda f: f.id):
+        if f0.id in seen_ids:
             continue
-        verdict("C20-R2", "dec:%s:%d" % (rname(r), off), got, want, e, D, "octet %d must be the bits %s of the group's sextets" % (off, want))
-    ck.ob("C20-R2", "dec:loop:positions", sorted(loop_offs) == [0, 1, 2], D.loc, D,
-          "the full-group loop writes the octets 0..2 exactly once each; it writes %s" % sorted(loop_offs))
-    ck.ob("C20-R2", "dec:tail:positions", sorted(set(tail_offs)) == [0, 1], D.loc, D,
-          "the tail writes octet 0 (one or two left over) and octet 1 (two left over) and nothing else; it writes %s" % sorted(tail_offs), structural=True)
-    st = strides(D)
-    ck.ob("C20-R2", "dec:strides", sorted(set(st.values())) == [3, 4] and len([v for v in st.values() if v == 4]) == 1, D.loc, D,
-          "the full-group loop of Decode() must advance input by 4 and output by 3: %s" % st)
+        seen_ids.add(f0.id)
+        f = prog.flat(f0)
+        em, denv = emissions(f, bevD, payload_dec)
+        groups = {}
+        for r, dest, off, kind, val, e, per_el in em:
+            if kind == "octet":
+                groups.setdefault((r, dest), []).append((off, val, e, per_el))
+        if not groups:
+            continue
+        ck.touch(f)
+        fn = f.base.rsplit("::", 1)[-1]
+        loop_offs, tail_sets, undecided = [], [], False
+        for (r, dest), sts in sorted(groups.items(), key=lambda x: str(x[0])):
+            gname = "%s:%s" % (fn, rname(r))
+            if any(pe for *_x, pe in sts):
+                inconclusive.append("dec:%s: the octets of this group are produced by a loop over the group's elements: positions not modelled" % gname)
+                undecided = True
+                continue
+            pos = 0
+            offs = []
+            for off, val, e, _pe in sts:
+                o_ = off if off is not None else pos
+                pos += 1
+                offs.append(o_)
+                got = [("SX", x[2], x[3]) if x[0] == "S" else x for x in val]
+                if not (0 <= o_ <= 2):
+                    ck.ob("C20-R2", "dec:%s:%d" % (gname, o_), False, e.loc, f, "a group has the octets 0..2; position %d is written" % o_)
+                    continue
+                want = []
+                for c in range(8):
+                    g = 8 * (2 - o_) + c
+                    want.append(("SX", 3 - g // 6, g % 6))
+                if verdict("C20-R2", "dec:%s:%d" % (gname, o_), got, want, e, f, "octet %d must be the bits %s of the group's sextets" % (o_, want)):
+                    n_dec += 1
+                else:
+                    undecided = True
+            (loop_offs if r == "loop" else tail_sets).append(sorted(offs)) if r != "loop" else loop_offs.extend(offs)
+        if not undecided:
+            ck.ob("C20-R2", "dec:%s:loop-positions" % fn, sorted(loop_offs) == [0, 1, 2], f.loc, f,
+                  "the full-group loop writes the octets 0..2 exactly once each; it writes %s" % sorted(loop_offs))
+            tails_ok = sorted(set(o for t_ in tail_sets for o in t_)) == [0, 1] and all(t_ == list(range(len(t_))) or t_ in ([0], [1], [0, 1]) for t_ in tail_sets)
+            ck.ob("C20-R2", "dec:%s:tail-positions" % fn, tails_ok, f.loc, f,
+                  "the tail writes octet 0 (one or two left over) and octet 1 (two left over) and nothing else; it writes %s" % tail_sets, structural=True)
+            st = strides(f)
+            ck.ob("C20-R2", "dec:%s:strides" % fn, 4 in st.values() and set(st.values()) <= {3, 4}, f.loc, f,
+                  "the full-group loop must advance the input by 4 (and an indexed output by 3): %s" % st)
+    if n_enc_groups == 0 and n_dec == 0:
+        raise AnalysisBroken("C20-R2: neither an encoder group nor a decoder store of the Base64 unit could be decided (%s)" % "; ".join(inconclusive[:3]))
+    for m_ in inconclusive:
+        ck.note("C20-R2 undecided: " + m_)
 
     # ---- R3: size table of the last group
     sw = [b for b in cds.blocks.values() if b.term and b.term.get("k") == "switch"]
